@@ -1170,7 +1170,7 @@ func TestVerifC03(t *testing.T) {
 		c03Child(t)
 		return
 	}
-	nhist := vw.Scale(48, 1200)
+	nhist := vw.Scale(40, 1200)
 	nlayer := vw.Scale(8, 100)
 	ncases := nhist + nlayer
 	caseID := func(i int) string {
